@@ -86,7 +86,7 @@ def numpy_convert(data, out, bpv, blockshape, ilines=None, xlines=None, samples=
 
 
 def segy_convert(path, out, bpv=4, blockshape=None, reduce_iops=False, header_detection="heuristic", queue=None,
-                 window=None, cls="SegyConverter", earlier=()):
+                 window=None, cls="SegyConverter", earlier=(), earlier_mode=None):
     import seismic_zfp.conversion as conv
     C = getattr(conv, cls)
     kw = {}
@@ -105,7 +105,7 @@ def segy_convert(path, out, bpv=4, blockshape=None, reduce_iops=False, header_de
                         return _orig(inline_set_bytes=inline_set_bytes)
                     c.check_memory = check_memory
                 for o0, b0, s0 in earlier:
-                    c.run(o0, bits_per_voxel=b0, blockshape=s0, reduce_iops=reduce_iops, header_detection=header_detection)
+                    c.run(o0, bits_per_voxel=b0, blockshape=s0, reduce_iops=reduce_iops, header_detection=earlier_mode or header_detection)
                 c.run(out, bits_per_voxel=bpv, blockshape=blockshape, reduce_iops=reduce_iops,
                       header_detection=header_detection)
     finally:
